@@ -769,6 +769,21 @@ theorem derived_column (t t' : Table) (n : Nat) (hr : t.Rect n) (hne : t ≠ [])
     have := mapE_ok_getElem hvs i (by simpa [mapE_ok_length hvs] using hi) hi
     simpa using this
 
+/-- `d(**kw)` evaluates the constants first (`res.update`, so a misfit raises before any callable runs)
+and then the callable; with a single callable there is no dependency loop: the result is the operand
+updated with the constants, then with the derived column (`derived_column`) -/
+theorem call_single (t : Table) (consts : List (String × ColVal)) (k : String) (f : Fn) :
+    t.call consts [(k, f)] =
+      match t.updateE consts with
+      | .error e => .error e
+      | .ok res => res.setFn (k, f) := by
+  unfold call
+  cases t.updateE consts with
+  | error e => rfl
+  | ok res =>
+    simp only [callLoop, List.length_cons, List.length_nil, Nat.lt_irrefl, if_false, setFns]
+    cases res.setFn (k, f) <;> rfl
+
 /-- `d.do(f, k)` on an existing column: the column becomes `f(value, **others)` row by row, every other
 column is untouched -/
 theorem do_column (t t' : Table) (n : Nat) (hr : t.Rect n) (hne : t ≠ []) (f : DoFn) (k : String)
